@@ -42,7 +42,7 @@ SMALL_INTS = [0, 1, 2, 3, 5, -1, -3, 10]
 FLOATS = [0.0, -0.0, 0.1, 0.15, 0.29, 0.57, 1.0, 1.5, -2.25, 3.14, 100.0, 2.0 ** 53, 1e308, -1e308,
           5e-324, 1e-9, 1.0000000001, 0.9999999999, 123.456, 1e22, 1e23]
 SPECIAL_FLOATS = [math.inf, -math.inf, math.nan]
-STRS = ["", "a", "b", "ab", "abc", "banana", "aaa", "xyz", "0", "12", "a1", "hello world",
+STRS = ["", "a", "b", "ab", "abc", "banana", "aaa", "xyz", "0", "12", "a1", "hello world", "caf\u00e9", "cafe\u0301", "\u212b",
         "Ab_9", "é", "日本", "\U0001f600", "a\nb", " ", "-"]
 ALPHABETS = ["ab", "abn", "abc", "0123456789", "", "xyz", "abnéz", "a",
              # characters that mean something to re / fnmatch / format: an alphabet is a plain set of characters
@@ -489,7 +489,15 @@ def _sib(r, v):
         out += [math.nan, math.inf]
         return out
     if isinstance(v, str):
-        out = [v + "a", v + "\n", "q" + v, v.upper(), v.encode("utf8", "replace"), None, v * 2]
+        out = [v + "a", v + "\n", "q" + v, v.upper(), v.encode("utf8", "replace"), None, v * 2, ...]
+        import unicodedata
+        for form in ("NFD", "NFC", "NFKC"):
+            try:
+                w = unicodedata.normalize(form, v)
+            except Exception:  # noqa
+                continue
+            if w != v:
+                out.append(w)              # canonically equivalent, not equal
         if v:
             i = r.randrange(len(v))
             out += [v[:i] + v[i + 1:], v[:i] + "Z" + v[i + 1:], v[1:], v[:-1]]
@@ -553,6 +561,8 @@ def perturbations(r, v, depth=0, limit=40):
     elif isinstance(v, dict):
         out += [{**v, r.choice(["new", 77, None]): 1}, None, list(v.items()),
                 {**v, "new": 1, 77: 2, None: 3, (1, 2): 4, b"k": 5}]
+        for k in list(v)[:4]:
+            keep.append({**v, k: ...})         # the marker object as a member value
         for k in list(v):
             w = dict(v)
             del w[k]
